@@ -27,20 +27,82 @@ pub fn ep(c: i128, s: TimeScale) -> Epoch {
 /// before the monitor that asked for the epoch uses it. The library keeps no state between calls today, so this changes
 /// nothing on the unchanged tree; a memo of "the entry / year / day that matched last" which forgets part of its key
 /// (the iers-only flag, the time scale, the sign) answers the monitored call from what the touch left behind.
+/// A provider with another table (the IERS list as it stood after its tenth entry, July 1977): used by `pretouch` only, so that a
+/// memo of the leap-second lookup which forgets *which table* it was learnt from is poisoned for everything after 1977.
+#[derive(Clone)]
+pub struct OutdatedTable {
+    data: Vec<hifitime::leap_seconds::LeapSecond>,
+    pos: usize,
+}
+impl OutdatedTable {
+    pub fn new() -> Self {
+        let data = crate::model::leap::table().iter().take(10).map(|&(ts, d)| hifitime::leap_seconds::LeapSecond::new(ts as f64, d as f64, true)).collect();
+        OutdatedTable { data, pos: 0 }
+    }
+}
+impl Default for OutdatedTable {
+    fn default() -> Self {
+        Self::new()
+    }
+}
+impl Iterator for OutdatedTable {
+    type Item = hifitime::leap_seconds::LeapSecond;
+    fn next(&mut self) -> Option<Self::Item> {
+        self.pos += 1;
+        self.data.get(self.pos - 1).copied()
+    }
+}
+impl DoubleEndedIterator for OutdatedTable {
+    fn next_back(&mut self) -> Option<Self::Item> {
+        if self.pos >= self.data.len() {
+            None
+        } else {
+            self.pos += 1;
+            self.data.get(self.data.len() - self.pos).copied()
+        }
+    }
+}
+impl std::ops::Index<usize> for OutdatedTable {
+    type Output = hifitime::leap_seconds::LeapSecond;
+    fn index(&self, i: usize) -> &Self::Output {
+        &self.data[i]
+    }
+}
+impl hifitime::leap_seconds::LeapSecondProvider for OutdatedTable {}
+
 pub fn pretouch(e: &Epoch, c: i128) {
-    if h64(&[c as u64, (c >> 64) as u64, 0x70c4]) >> 59 != 0 {
+    let h = h64(&[c as u64, (c >> 64) as u64, 0x70c4]);
+    if h >> 59 != 0 {
         return;
     }
-    let e = *e;
+    // which epoch is touched: the one in hand, its mirror image about the scale's zero (a memo keyed with `Duration ==`, which
+    // holds between x and -x within a century, answers for the wrong side), or a neighbour an hour / a year away (a memo of
+    // "the table entry / year that matched last" tried first with a cheaper, less exact comparison)
+    let variant = (h >> 8) % 6;
+    let tc = match variant {
+        0 | 1 => c,
+        2 => -c,
+        3 => c + NS_H,
+        4 => c - NS_H,
+        _ => c + 400 * NS_D,
+    };
+    if !(MIN_NS + NPC..=MAX_NS - NPC).contains(&tc) {
+        return;
+    }
+    let e = Epoch::from_duration(mk(tc), e.time_scale);
+    // the order of the conversions rotates, so that "the last conversion made" has every target in turn
+    let rot = ((h >> 16) % 9) as usize;
     let _ = guard(move || {
-        let a = (e.leap_seconds(false), e.leap_seconds(true), e.leap_seconds_iers());
-        let b = (e.to_gregorian_utc(), e.to_gregorian_tai(), e.weekday(), e.weekday_utc(), e.day_of_year(), e.year());
+        let a = (e.leap_seconds(false), e.leap_seconds(true), e.leap_seconds_iers(), if rot % 3 == 0 { e.leap_seconds_with(true, OutdatedTable::new()) } else { None });
+        let b = (e.to_gregorian_utc(), e.to_gregorian_tai(), e.weekday(), e.weekday_utc(), e.day_of_year(), e.year(), e.month_name());
+        let v = (e.to_unix_seconds(), e.to_mjd_utc_days(), e.to_jde_et_days(), e.to_jde_tdb_days());
         let mut k = 0i128;
-        for s in crate::model::scale::SCALES {
+        for i in 0..9 {
+            let s = crate::model::scale::SCALES[(i + rot) % 9];
             k += e.to_duration_in_time_scale(s).to_parts().1 as i128;
         }
-        let _ = (e.to_unix_seconds(), e.to_mjd_utc_days(), e.to_jde_et_days());
-        std::hint::black_box((a, b, k));
+        let f = format!("{e}").len();
+        std::hint::black_box((a, b, v, k, f));
     });
 }
 
